@@ -108,7 +108,12 @@ func (clnt *Clnt) Rpcnb(r *Req) error {
 	clnt.reqlast = r
 	clnt.Unlock()
 
-	clnt.reqout <- r
+	select {
+	case clnt.reqout <- r:
+	case <-clnt.done:
+		/* the connection failed meanwhile and the writer is gone; the
+		   reader reports the error on r.Done like for any pending request */
+	}
 	return nil
 }
 
@@ -234,6 +239,8 @@ func (clnt *Clnt) recv() {
 
 closed:
 	clnt.done <- true
+	/* callers about to hand their request to the writer must not wait for it */
+	close(clnt.done)
 
 	/* send error to all pending requests */
 	clnt.Lock()
